@@ -96,3 +96,9 @@ impl OSSWUMap for G1 {
         }
     }
 }
+
+/// Verification hook: (A', B', Z, sqrt(-Z^3)) of the G1 SSWU map.
+#[cfg(feature = "verif-hooks")]
+pub fn verif_consts() -> [Fq; 4] {
+    [ELLP_A, ELLP_B, XI, SQRT_M_XI_CUBED]
+}
